@@ -35,7 +35,7 @@ FUNCS = {
     "speed_test": ("argo", ("lon", "lat", "tinp"), wl.p_speed, True),
     "valid_range_test": ("axds", ("inp",), wl.p_valid_range, True),
 }
-WEIGHTS = {"gross_range_test": 3, "spike_test": 4, "rate_of_change_test": 3, "flat_line_test": 3, "attenuated_signal_test": 3, "climatology_test": 5, "density_inversion_test": 3, "location_test": 2, "pressure_increasing_test": 2, "speed_test": 2, "valid_range_test": 4}
+WEIGHTS = {"gross_range_test": 3, "spike_test": 4, "rate_of_change_test": 3, "flat_line_test": 3, "attenuated_signal_test": 3, "climatology_test": 5, "density_inversion_test": 3, "location_test": 2, "pressure_increasing_test": 2, "speed_test": 3, "valid_range_test": 4}
 
 
 def p_atten_full(rng):
@@ -92,9 +92,9 @@ def gen_series(rng, n, kind, missing_ok):
 
 def gen_data(rng, fn, n=None):
     module, args, _, missing_ok = FUNCS[fn]
-    if n is None and rng.chance(0.012):
-        # lengths around powers of two, where chunked / blocked implementations change behaviour
-        n = rng.pick((63, 64, 65, 255, 256, 257, 1023, 1024, 1025, 4095, 4096, 4097))
+    if n is None and rng.chance(0.02):
+        # lengths at and just past powers of two, where chunked / blocked implementations change behaviour
+        n = rng.pick((64, 65, 256, 257, 1024, 1025, 4096, 4097))
     n = wl.gen_n(rng, 24) if n is None else n
     data = {a: gen_series(rng, n, a, missing_ok) for a in args}
     if "lat" in data and "lon" in data and n >= 2 and rng.chance(0.3):
